@@ -25,8 +25,19 @@ read here is index / selection logic, not arithmetic, so values carry a type (Ra
 * a name that is indexed, measured or searched is a list: `v[0]` is `v.headD 0`, `v[-1]` is `v.getLastD 0`, `len(v)` is
   `v.length` (the length of a table that is not otherwise read is the parameter `v_len`), `x in v` is `x ∈ v`, `sum(c for s in v)` is `v.countP c`, `a + b` on lists is `++`, `tuple(v)` / `list(v)` is `v`,
   a tuple / list literal is a list literal from which `np.nan` is dropped (NaN is equal to no name);
+* the parameters of a generated definition come in a canonical order (the enclosing function's own parameters and the
+  loop targets first, then row fields / columns / lengths in table order, then other free names by first use);
 * truthiness: of a number `≠ 0`, of a string `≠ ""`, of a list `≠ []`; `a < b < c` is `a < b ∧ b < c`; a comparison bound to a
   name and updated with `|=` / `&=` is the disjunction / conjunction (elementwise reading of a boolean mask);
+* in a function of WHOLE COLUMNS (`segment_mean`) `table["log2"]` is the list of the column's values, `len(table)` the
+  parameter `table_len`, `col.sum()` is `col.sum`, `col.mean()` is `col.sum / col.length`, `col.any()` is "some value ≠ 0",
+  `np.average(a, weights=w)` is `(zipWith (·*·) a w).sum / w.sum`, `col.iat[-1]` is `col[-1]`; the result is an `Option`:
+  `return np.nan` is `none`;
+* in such a function `outrow = table[0].copy()` starts a ROW RECORD, `outrow["col"] = e` sets a field, and yielding the
+  record yields the tuple (chromosome, start, end, gene, log2, depth, weight, probes) of its fields, a field never set
+  being the first row's (`col.headD`); a table is true when `table_len ≠ 0`; the result of a named function of another
+  module bound to a name (`segmean = segment_mean(rows, skip_low)`) is a parameter of the declared type; a float
+  (NaN included) `is None` is false; a parameter whose name is a Lean keyword gets a trailing underscore (`end_`);
 * `int(e)`, `math.ceil(e)` of an Int-typed `e` are `e`; float literals are the exact doubles; `params.ANTITARGET_ALIASES`
   (not a plain literal, so not inlined) is the definition of that name in Generated/Consts.lean;
 * a loop body is read as ONE ITERATION: a function from the loop-carried variables (the names bound before the loop and
@@ -332,7 +343,10 @@ class TFn:
     # read as the definitions of Generated/Consts.lean, which the generated file must import
     PARAMS = {"ANTITARGET_ALIASES": "List String", "IGNORE_GENE_NAMES": "List String", "ANTITARGET_NAME": "String"}
 
-    def __init__(self, hints=None, num="Int", elem="Nat", table_names=("self", "data")):
+    def __init__(self, hints=None, num="Int", elem="Nat", table_names=("self", "data"), column_lists=False, first=()):
+        self.column_lists = column_lists   # `table["col"]` is the whole column (a list), not one row's value
+        self.first = [n for n in first]    # names that lead the signature: the function's own parameters, loop targets
+        self.derived = {}                  # parameter -> rank of the column / length it stands for
         self.params = {}            # name -> type or None (not yet known)
         self.hints = dict(hints or {})
         self.num = num              # type of a numeric parameter nothing else determines
@@ -340,7 +354,14 @@ class TFn:
         self.table_names = set(table_names)
 
     # -- parameters ----------------------------------------------------------------------------------------------
-    def param(self, name, typ=None):
+    LEAN_KEYWORDS = {"end", "from", "at", "in", "fun", "do", "then", "else", "if", "let", "have", "show", "open", "by"}
+    RECORD_ORDER = ["chromosome", "start", "end", "gene", "log2", "depth", "weight", "probes"]
+
+    def param(self, name, typ=None, col=None):
+        if name in self.LEAN_KEYWORDS:
+            name += "_"
+        if col is not None and name not in self.derived:
+            self.derived[name] = -1 if col == "len" else self.RECORD_ORDER.index(col)
         if name not in self.params:
             self.params[name] = self.hints.get(name, typ)
         elif self.params[name] is None and typ is not None:
@@ -401,7 +422,9 @@ class TFn:
             return e.attr, self.PARAMS[e.attr]   # the constant of Generated/Consts.lean
         if isinstance(e, ast.Attribute) and e.attr in self.COLUMNS and isinstance(e.value, ast.Name) \
                 and e.value.id not in env:
-            return self.param(f"{e.value.id}_{e.attr}", self.COLUMNS[e.attr])
+            if self.column_lists:
+                return self.param(e.attr, "List " + self.COLUMNS[e.attr], col=e.attr)
+            return self.param(f"{e.value.id}_{e.attr}", self.COLUMNS[e.attr], col=e.attr)
         if isinstance(e, ast.Subscript):
             sl = e.slice
             if isinstance(sl, ast.Constant) and isinstance(sl.value, str) and sl.value in self.COLUMNS:
@@ -410,9 +433,14 @@ class TFn:
                 if isinstance(base, ast.Attribute) and base.attr == "data":
                     base = base.value
                 if isinstance(base, ast.Name) and base.id not in env:
+                    if self.column_lists:
+                        return self.param(sl.value, "List " + self.COLUMNS[sl.value], col=sl.value)
                     if base.id in self.table_names:
-                        return self.param(sl.value, self.COLUMNS[sl.value])
-                    return self.param(f"{base.id}_{sl.value}", self.COLUMNS[sl.value])
+                        return self.param(sl.value, self.COLUMNS[sl.value], col=sl.value)
+                    return self.param(f"{base.id}_{sl.value}", self.COLUMNS[sl.value], col=sl.value)
+            if isinstance(e.value, ast.Attribute) and e.value.attr in ("iat", "iloc"):
+                # `column.iat[0]` / `column.iat[-1]`: first / last element, like `column[0]` / `column[-1]`
+                return self.expr(ast.Subscript(value=e.value.value, slice=sl, ctx=ast.Load()), env)
             idx = None
             if isinstance(sl, ast.Constant) and isinstance(sl.value, int):
                 idx = sl.value
@@ -463,7 +491,7 @@ class TFn:
                 a0 = args[0]
                 if isinstance(a0, ast.Name) and a0.id not in env and not str(
                         self.params.get(a0.id) or self.hints.get(a0.id) or "").startswith("List "):
-                    return self.param(a0.id + "_len", "Nat")   # the length of a table: a parameter of its own
+                    return self.param(a0.id + "_len", "Nat", col="len")   # the length of a table: a parameter of its own
                 t, _ty = self._as_list(a0, env)
                 return f"{t}.length", "Nat"
             if f in ("int", "math.ceil", "np.ceil", "float") and len(args) == 1 and not e.keywords:
@@ -471,6 +499,23 @@ class TFn:
                 if ty in ("Int", "Nat") or (f == "float" and ty == "Rat"):
                     return t, ty
                 raise Untranslatable(f"{f} of a value of type {ty}: " + ast.unparse(e))
+            if isinstance(e.func, ast.Attribute) and e.func.attr in ("sum", "mean", "any") and not args and not e.keywords:
+                t, ty = self.expr(e.func.value, env)
+                if str(ty).startswith("List ") and ty[5:] in self.NUMERIC:
+                    if e.func.attr == "sum":
+                        return f"{t}.sum", ty[5:]
+                    if e.func.attr == "mean" and ty == "List Rat":
+                        return f"({t}.sum / ({t}.length : Rat))", "Rat"
+                    if e.func.attr == "any":
+                        return f"({t}.any (fun x => decide (x ≠ 0)))", "Bool"
+                raise Untranslatable(f"reduction {e.func.attr} of {ty}: " + ast.unparse(e))
+            if f in ("np.average", "numpy.average") and len(args) == 1 and len(e.keywords) == 1 \
+                    and e.keywords[0].arg == "weights":
+                a, ta = self.expr(args[0], env)
+                w, tw = self.expr(e.keywords[0].value, env)
+                if ta == "List Rat" and tw == "List Rat":
+                    return f"((List.zipWith (· * ·) {a} {w}).sum / {w}.sum)", "Rat"
+                raise Untranslatable("np.average of " + f"{ta}, {tw}")
             if f == "sum" and len(args) == 1 and isinstance(args[0], ast.GeneratorExp) and len(args[0].generators) == 1:
                 g = args[0].generators[0]
                 if isinstance(g.target, ast.Name) and not g.ifs:
@@ -493,6 +538,13 @@ class TFn:
             parts = []
             left = e.left
             for op, right in zip(e.ops, e.comparators):
+                if isinstance(op, (ast.Is, ast.IsNot)) and isinstance(right, ast.Constant) and right.value is None:
+                    _a, ta = self.expr(left, env)
+                    if ta in ("Rat", "Option Rat"):   # a float (NaN included) is never None
+                        parts.append("False" if isinstance(op, ast.Is) else "True")
+                        left = right
+                        continue
+                    raise Untranslatable("None-test of a value of type " + str(ta))
                 if isinstance(op, (ast.In, ast.NotIn)):
                     a, ta = self.expr(left, env)
                     l, lty = self._as_list(right, env, ta)
@@ -507,10 +559,16 @@ class TFn:
                     self._unify(a, ta, b, tb)
                     parts.append(f"{a} {sym} {b}")
                 left = right
+            if len(parts) == 1 and parts[0] in ("True", "False"):
+                return parts[0]
             return "(" + " ∧ ".join(parts) + ")"
         if isinstance(e, ast.Constant) and isinstance(e.value, bool):
             return "True" if e.value else "False"
+        if isinstance(e, ast.Compare) and False:
+            pass
         # truthiness of a value
+        if isinstance(e, ast.Name) and self.column_lists and e.id in self.table_names and e.id not in env:
+            return f"({self.param(e.id + '_len', 'Nat', col='len')[0]} ≠ 0)"   # a table is true when it has rows
         if isinstance(e, ast.Name) and e.id in env and len(env[e.id]) == 2 and env[e.id][1] == "Prop":
             return env[e.id][0]
         t, ty = self.expr(e, env)
@@ -518,6 +576,8 @@ class TFn:
             ty = self._settle(t, ty, self.num)
         if ty in self.NUMERIC or ty == "num":
             return f"({t} ≠ 0)"
+        if ty == "Bool":
+            return f"({t} = true)"
         if ty == "String":
             return f'({t} ≠ "")'
         if str(ty).startswith("List "):
@@ -541,7 +601,30 @@ class TFn:
             return f"({lo[0]}, some {hi[0]})"
         return None
 
+    opaque_calls = ()
+
+    def _first_row(self, v):
+        """`table[0]`, `table[0].copy()`, `table.iloc[0]`"""
+        if isinstance(v, ast.Call) and isinstance(v.func, ast.Attribute) and v.func.attr == "copy" and not v.args:
+            v = v.func.value
+        if isinstance(v, ast.Subscript) and isinstance(v.slice, ast.Constant) and v.slice.value == 0:
+            b = v.value
+            if isinstance(b, ast.Attribute) and b.attr == "iloc":
+                b = b.value
+            return isinstance(b, ast.Name) and b.id in self.table_names
+        return False
+
     def yielded(self, e, env):
+        if isinstance(e, ast.Name) and e.id in env and env[e.id][0] == "REC":
+            # a row record: the fields in table order; a field that was not assigned is the first row's
+            rec, out = env[e.id][1], []
+            for col in self.RECORD_ORDER:
+                if col in rec:
+                    out.append(rec[col])
+                elif col in self.COLUMNS and col != "probes":
+                    t, ty = self.param(col, "List " + self.COLUMNS[col], col=col)
+                    out.append(f"({t}.headD {self._zero(ty[5:])})")
+            return "(" + ", ".join(out) + ")"
         if isinstance(e, ast.Tuple):
             return "(" + ", ".join(self.yielded(x, env) for x in e.elts) + ")"
         sp = self._slice_pair(e, env)
@@ -569,6 +652,26 @@ class TFn:
                 if v.func.attr == "append" and len(v.args) == 1 and not v.keywords:
                     return self.step(rest, env, ys + [self.yielded(v.args[0], env)], state)
             raise Untranslatable("statement " + ast.unparse(s)[:80])
+        if isinstance(s, ast.Assign) and len(s.targets) == 1 and isinstance(s.targets[0], ast.Name) \
+                and self.column_lists and self._first_row(s.value):
+            env = dict(env)
+            env[s.targets[0].id] = ("REC", {})   # a copy of the table's first row
+            return self.step(rest, env, ys, state)
+        if isinstance(s, ast.Assign) and len(s.targets) == 1 and isinstance(s.targets[0], ast.Subscript) \
+                and isinstance(s.targets[0].value, ast.Name) and s.targets[0].value.id in env \
+                and env[s.targets[0].value.id][0] == "REC" and isinstance(s.targets[0].slice, ast.Constant) \
+                and s.targets[0].slice.value in self.RECORD_ORDER:
+            env = dict(env)
+            rec = dict(env[s.targets[0].value.id][1])
+            rec[s.targets[0].slice.value] = self.expr(s.value, env)[0]
+            env[s.targets[0].value.id] = ("REC", rec)
+            return self.step(rest, env, ys, state)
+        if isinstance(s, ast.Assign) and len(s.targets) == 1 and isinstance(s.targets[0], ast.Name) \
+                and isinstance(s.value, ast.Call) and isinstance(s.value.func, ast.Name) \
+                and s.targets[0].id in self.hints and s.value.func.id in self.opaque_calls:
+            env = dict(env)
+            env[s.targets[0].id] = self.param(s.targets[0].id)   # the result of another module's function
+            return self.step(rest, env, ys, state)
         if isinstance(s, ast.Assign) and len(s.targets) == 1 and isinstance(s.targets[0], ast.Name):
             env = dict(env)
             if isinstance(s.value, (ast.Compare, ast.BoolOp)):
@@ -582,6 +685,11 @@ class TFn:
             op = "∨" if isinstance(s.op, ast.BitOr) else "∧"
             env[s.target.id] = (f"({env[s.target.id][0]} {op} {self.cond(s.value, env)})", "Prop")
             return self.step(rest, env, ys, state)
+        if isinstance(s, ast.Return) and not state and not ys and s.value is not None and self.column_lists:
+            # a function of whole columns that may return NaN: `Option`, NaN = none
+            if ast.unparse(s.value) in ("np.nan", "numpy.nan", "math.nan", "float('nan')"):
+                return "none"
+            return f"some {self.expr(s.value, env)[0]}"
         if isinstance(s, ast.Return) and not state and not ys and s.value is not None:
             v = s.value
             if isinstance(v, ast.Subscript) and isinstance(v.value, ast.Name) and v.value.id in self.table_names:
@@ -603,9 +711,25 @@ class TFn:
         raise Untranslatable(type(s).__name__ + ": " + ast.unparse(s)[:80])
 
     # -- emission ------------------------------------------------------------------------------------------------
+    def ordered(self):
+        """the parameters in CANONICAL order, so that a rewrite which only changes where a name is first used keeps
+        the signature: the enclosing function's own parameters and the loop targets (`first`, in that order), then the
+        fields / columns / lengths read off rows and tables (in table order, equal ones in order of first use), then
+        any other free name in order of first use"""
+        use = {n: k for k, n in enumerate(self.params)}
+
+        def key(n):
+            if n in self.first:
+                return (0, self.first.index(n), 0)
+            if n in self.derived:
+                return (1, self.derived[n], use[n])
+            return (2, use[n], 0)
+        return sorted(self.params, key=key)
+
     def signature(self):
         out = []
-        for name, ty in self.params.items():
+        for name in self.ordered():
+            ty = self.params[name]
             ty = ty or self.num
             out.append(f"({name} : {ty})")
         return " ".join(out)
@@ -613,7 +737,7 @@ class TFn:
     def define(self, lean_name, ret, body, comment=None):
         doc = f"/-- {comment} -/\n" if comment else ""
         sig = self.signature()
-        return doc + f"def {lean_name} {sig + ' ' if sig else ''}: {ret} :=\n  {body}", list(self.params)
+        return doc + f"def {lean_name} {sig + ' ' if sig else ''}: {ret} :=\n  {body}", self.ordered()
 
 
 def emit_typed(o, lean_name, build, comment=None):
